@@ -165,7 +165,8 @@ JLead(ev, reg, opts) ==
   LET v == reg[ev.args[1]].v
       a == reg[ev.args[1]].d
       names == IF v.kind = "poly" THEN v.names ELSE <<0>>
-      dims == names
+      dims == SortedNames(RangeOf(names))      \* the monomial order refers to the indeterminates in index order,
+                                                \* whatever order the names are stored in (columns follow `names`)
       nn == Len(names)
       n == Len(a.el)
   IN IF ev.out # "ret" THEN "raised"
